@@ -206,16 +206,37 @@ def _hexmode(case):
             if s['kind'] == 'SRC':
                 s['callouts'] = None
                 s['flags'] &= 0xFE
-        data = encode.encode(pel)
-        path = os.path.join(d, 'x%d.pel' % k)
+        if not any(s['kind'] == 'SRC' for s in pel['secs']):
+            pel['secs'].insert(0, genpel.gen_src(rng, 'PS', ncallouts=-1, kind='BD'))
+        eid = 0x50002000 + k
+        pel['ph']['eid'] = encode.u32(eid)
+        pel['ph']['plid'] = encode.u32(eid)
+        pel['ph']['bmc'] = encode.u32(700 + k)
+        data = list(encode.encode(pel))
+        if rng.random() < .4:
+            data += genpel.rbytes(rng, rng.randrange(1, 40))      # bytes behind the last section belong to the file
+        dd = os.path.join(d, 'hexdir')
+        import shutil
+        shutil.rmtree(dd, ignore_errors=True)
+        os.makedirs(dd)
+        path = os.path.join(dd, 'x%d_%08X.pel' % (k, eid))
         seams.write_file(path, data)
-        res = seams.run_cli(['-f', path, '-x'])
-        os.remove(path)
-        lines = (res['out'] or '').split('\n')
-        if lines and lines[-1] == '':
-            lines = lines[:-1]
-        recs.append(dict(kind='hexmode', shape_ok=res['exit'] == 0 and not res['uncaught'], data=data,
-                         lines=_cp(lines)))
+        ex = os.path.join(d, 'exclude.txt')
+        with open(ex, 'w') as f:
+            f.write('NOTTHERE\n')
+        ref = ''.join(chr(c) for c in [s for s in pel['secs'] if s['kind'] == 'SRC'][0]['ascii'][:8])
+        # every mode that can show a PEL in hex
+        modes = [['-f', path, '-x'], ['-p', dd, '-a', '-x'], ['-p', dd, '-l', '-x'], ['-p', dd, '-i', '%08X' % eid, '-x'],
+                 ['-p', dd, '--bmc-id', str(700 + k), '-x'], ['-p', dd, '--plid', '0x%08X' % eid, '-x'],
+                 ['-p', dd, '--src', ref[:4], '-x'], ['-p', dd, '--src-exclude', ex, '-x'], ['-p', dd, '-x', '-r', '-a']]
+        for argv in ([modes[0]] + rng.sample(modes[1:], 3)):
+            res = seams.run_cli(argv)
+            lines = (res['out'] or '').split('\n')
+            if lines and lines[-1] == '':
+                lines = lines[:-1]
+            recs.append(dict(kind='hexmode', shape_ok=res['exit'] == 0 and not res['uncaught'], data=data,
+                             lines=_cp(lines), argv=[a for a in argv if a.startswith('-')]))
+        shutil.rmtree(dd, ignore_errors=True)
     return recs
 
 
